@@ -260,3 +260,24 @@ func Watch(limit time.Duration, what string) func() {
 	})
 	return func() { tm.Stop() }
 }
+
+var detFile *os.File
+
+// DetLog appends one line per run to $VERIF_DETLOG (determinism self-test: the files of two processes running the
+// same seed must be byte-identical). Never draws, never reads a clock.
+func DetLog(format string, args ...interface{}) {
+	path := os.Getenv("VERIF_DETLOG")
+	if path == "" {
+		return
+	}
+	mu.Lock()
+	defer mu.Unlock()
+	if detFile == nil {
+		f, err := os.OpenFile(path, os.O_CREATE|os.O_WRONLY|os.O_TRUNC, 0o644)
+		if err != nil {
+			return
+		}
+		detFile = f
+	}
+	fmt.Fprintf(detFile, format+"\n", args...)
+}
